@@ -43,6 +43,8 @@ type TxBuilder struct {
 	// v2 outputs created by earlier transactions of this builder that may be
 	// spent as ephemeral inputs
 	eph []types.SiacoinElement
+	// the same for siafund outputs (spent only by V2SFEph)
+	ephSF []types.SiafundElement
 
 	// Payee, if set, receives a share of the outputs (the wallet under test)
 	Payee *types.Address
@@ -486,6 +488,11 @@ func (b *TxBuilder) commitV2(kind string, txn types.V2Transaction) bool {
 			b.eph = append(b.eph, txn.EphemeralSiacoinOutput(i))
 		}
 	}
+	for i := range txn.SiafundOutputs {
+		if _, ok := b.Net.ActorByAddr(txn.SiafundOutputs[i].Address); ok {
+			b.ephSF = append(b.ephSF, txn.EphemeralSiafundOutput(i))
+		}
+	}
 	b.V2Txns = append(b.V2Txns, txn)
 	b.Kinds = append(b.Kinds, kind)
 	b.E.Probe("tx_" + kind)
@@ -567,6 +574,24 @@ func (b *TxBuilder) V2SF() bool {
 		_ = a
 		b.SignV2(&txn)
 		return b.commitV2("v2sf", txn)
+	}
+	return false
+}
+
+// V2SFEph moves a siafund output created by an earlier transaction of this
+// builder (an ephemeral siafund parent). It draws nothing when there is none.
+func (b *TxBuilder) V2SFEph() bool {
+	for i := len(b.ephSF) - 1; i >= 0; i-- {
+		e := b.ephSF[i]
+		if b.usedSF[e.ID] {
+			continue
+		}
+		txn := types.V2Transaction{
+			SiafundInputs:  []types.V2SiafundInput{{Parent: e.Copy(), ClaimAddress: b.payeeAddr()}},
+			SiafundOutputs: []types.SiafundOutput{{Address: b.pickActor().Addr, Value: e.SiafundOutput.Value}},
+		}
+		b.SignV2(&txn)
+		return b.commitV2("v2sfeph", txn)
 	}
 	return false
 }
